@@ -205,9 +205,9 @@ if not c.quick and action_cov:
 
 # ---------------- 2+3. real code: record, enumerate every crash point ----------------
 if c.quick:
-    # 'Fww' / 'Mww': two batches acknowledged while the flush / merge writes its files - the manifest it publishes names two
-    # parts that exist only in memory, the next round flushes both
-    hists = [['W', 'W', 'F', 'W', 'M', 'F'], ['W', 'Fw', 'F', 'Mw', 'F'], ['W', 'Fww', 'F']]
+    # 'Fww' / 'Fwwwwwww' / 'Mww': two / seven batches acknowledged while the flush / merge writes its files - the manifest it publishes names
+    # parts that exist only in memory, the next round flushes all of them
+    hists = [['W', 'W', 'F', 'W', 'M', 'F'], ['W', 'Fw', 'F', 'Mw', 'F'], ['W', 'Fwwwwwww', 'F']]
     subset = 4
 else:
     hists = [['W', 'W', 'F', 'W', 'M', 'F'], ['W', 'Fw', 'F', 'Mw', 'F'], ['W', 'F', 'W', 'F', 'M', 'W', 'F'], ['W', 'W', 'W', 'F', 'M', 'W', 'Fw', 'M', 'F'],
@@ -257,11 +257,18 @@ for i, (tv, oracle, nev) in enumerate(vals):
         prev = evs[max(0, k - 3):k]
         ev = json.loads(bad) if bad else {}
         sig = 'protocol-trace-rejected:%s:%s-%s' % (tv.violated or 'no-such-step', ev.get('op', '?'), (ev.get('nm') or {}).get('k', '?'))
-        # a rejected trace is evidence about the code only if the same run is rejected twice
-        again = harness(jobs[i])
-        tv2, _, _ = validate('c04tr%d' % i, again['trace'], jobs[i]['shape']['tagged'])
-        if tv2.ok:
-            c.inconclusive('trace rejection not reproduced (%s)' % sig)
+        # a rejected trace is evidence about the code only if the same history is rejected again (the order in which the
+        # code issues its operations may legitimately depend on nothing but the history: up to 5 further runs)
+        seen_again = False
+        for attempt in range(5):
+            again = harness(jobs[i])
+            tv2, _, _ = validate('c04tr%d' % i, again['trace'], jobs[i]['shape']['tagged'])
+            if not tv2.ok and not tv2.timed_out:
+                seen_again = True
+                break
+        if not seen_again:
+            c.unreproduced('trace rejection not reproduced in 5 further runs (%s)' % sig)
+            continue
         c.report(sig, 'the syscall log of the real flush/merge/publication is not a behaviour of TSTableCrash.tla: rejected at event %d %s (violated=%s); previous events: %s' % (
             k + 1, bad[:300], tv.violated, prev), {'harness': 'c04-trace', 'hist': jobs[i]['hist'], 'shape': jobs[i]['shape'], 'event': k + 1})
         continue
@@ -316,10 +323,17 @@ for i, r in enumerate(results):
 reproduced = 0
 for sig, (v, job) in sorted(seen.items()):
     ro = replay_obj(v, job)
-    again = harness(dict(hist=ro['hist'], shape=ro['shape'], only_k=ro['only_k'], only_variant=ro['only_variant'], only_detail=ro['only_detail'],
-                         max_subset=ro['max_subset'], id=900), trace=False)
-    if not [x for x in again['violations'] if x['signature'] == sig]:
-        c.unreproduced('violation %s not reproduced on a second run' % sig)
+    # re-executed from scratch (fresh table, same history, only this crash point / image): what the code does between two
+    # crash points may depend on more than the history (e.g. an iteration order), so up to 6 attempts
+    hit = False
+    for attempt in range(6):
+        again = harness(dict(hist=ro['hist'], shape=ro['shape'], only_k=ro['only_k'], only_variant=ro['only_variant'], only_detail=ro['only_detail'],
+                             max_subset=ro['max_subset'], id=900 + attempt), trace=False)
+        if [x for x in again['violations'] if x['signature'] == sig]:
+            hit = True
+            break
+    if not hit:
+        c.unreproduced('violation %s not reproduced in 6 further runs' % sig)
         continue
     reproduced += 1
     c.report(sig, v['detail'], ro)
